@@ -1,6 +1,7 @@
 (* C04 - the recorder's liveness skeleton (tid_list, FORK_START/END, TASK_START/END, FINISH,
-   check_tid_list, the loop of stop_tracing): the loop ends once the pipe is drained, unless an
-   entry with tid = -1 (FORK_START without FORK_END) is left: then it never ends. *)
+   check_tid_list, drop_pending_forks, the loop of stop_tracing).
+   The code as it is: once the pipe is drained and has no writer, the loop ends - also when a
+   FORK_START never got its FORK_END.  The legacy loop (without drop_pending_forks) never ends then. *)
 From Coq Require Import NArith ZArith List Bool Arith Lia.
 Import ListNotations.
 Require Import UV.Gen.Consts UV.C04.Model.
@@ -22,7 +23,154 @@ Proof.
   - destruct (set_fork_tid _ _ _); [reflexivity|]. destruct (set_fork_tid _ _ _); reflexivity.
 Qed.
 
-(* an entry that check_tid_list will never mark *)
+(* ------------------------------------------------------------------ termination *)
+(* a task the loop can finish with: already marked, or a pending fork, or a dead task with a real tid *)
+Definition task_done (dead : Z -> bool) (t : tl) : bool :=
+  t_exited t || (t_tid t =? -1) || ((0 <=? t_tid t) && dead (t_tid t)).
+
+Lemma check_mark_exited dead t : t_exited t = true -> check_mark dead t = t.
+Proof. intro H. unfold check_mark. rewrite H. reflexivity. Qed.
+
+Lemma check_mark_keeps_exited dead t : t_exited t = true -> t_exited (check_mark dead t) = true.
+Proof. intro H. rewrite check_mark_exited; assumption. Qed.
+
+(* after check_tid_list an entry that can be finished is marked or is a pending fork *)
+Lemma check_mark_done dead t :
+  task_done dead t = true -> t_exited (check_mark dead t) = true \/ pending_fork (check_mark dead t) = true.
+Proof.
+  unfold task_done, check_mark, pending_fork. destruct (t_exited t) eqn:E; cbn [orb].
+  - intros _. left. exact E.
+  - destruct (t_tid t =? -1) eqn:E1; cbn [orb].
+    + intros _. right. apply Z.eqb_eq in E1.
+      replace (t_tid t <? 0) with true by (symmetry; apply Z.ltb_lt; lia).
+      rewrite E. cbn. apply Z.eqb_eq in E1. rewrite E1. reflexivity.
+    + intro H. apply andb_true_iff in H. destruct H as [H1 H2]. left.
+      replace (t_tid t <? 0) with false by (symmetry; apply Z.ltb_ge; apply Z.leb_le; exact H1).
+      rewrite H2. reflexivity.
+Qed.
+
+Lemma drop_mark_exited t : t_exited t = true \/ pending_fork t = true -> t_exited (drop_mark t) = true.
+Proof.
+  intros [H|H]; unfold drop_mark.
+  - destruct (pending_fork t); [reflexivity|exact H].
+  - rewrite H. reflexivity.
+Qed.
+
+Lemma drop_mark_not_pending t : pending_fork (drop_mark t) = false.
+Proof.
+  unfold drop_mark. destruct (pending_fork t) eqn:E; [|exact E].
+  unfold pending_fork. cbn. apply andb_false_r.
+Qed.
+
+Lemma check_mark_not_pending dead t : pending_fork t = false -> pending_fork (check_mark dead t) = false.
+Proof.
+  unfold check_mark. destruct (t_exited t || (t_tid t <? 0)); [auto|].
+  destruct (dead (t_tid t)); [|auto]. intros _. unfold pending_fork. cbn. apply andb_false_r.
+Qed.
+
+Lemma existsb_false_map {A} (p : A -> bool) (f : A -> A) l :
+  (forall x, p (f x) = false) -> existsb p (map f l) = false.
+Proof. intro H. induction l as [|x l IH]; cbn; [reflexivity|]. rewrite H. exact IH. Qed.
+Lemma existsb_false_map_keep {A} (p : A -> bool) (f : A -> A) l :
+  (forall x, p x = false -> p (f x) = false) -> existsb p l = false -> existsb p (map f l) = false.
+Proof.
+  intros H. induction l as [|x l IH]; cbn; [reflexivity|]. intro E. apply orb_false_iff in E.
+  destruct E as [E1 E2]. rewrite (H x E1). apply IH. exact E2.
+Qed.
+
+(* the pipe is drained (rchan = []), it has no writer: at most two more iterations *)
+Lemma stops_when_drained dead s fuel :
+  rchan s = [] ->
+  forallb (task_done dead) (tids s) = true \/ finish_received s = true ->
+  (2 < fuel)%nat ->
+  is_stopped (stop_loop true fuel dead true s) = true.
+Proof.
+  intros Hch H Hf. destruct fuel as [|[|[|k]]]; try lia.
+  (* first iteration *)
+  cbn [stop_loop]. rewrite Hch. unfold check_tid_list.
+  set (l1 := map (check_mark dead) (tids s)).
+  destruct (forallb t_exited l1) eqn:E1; [reflexivity|].
+  unfold drop_pending_forks. cbn [rchan tids finish_received child_exited failed]. rewrite Hch.
+  set (l2 := map drop_mark l1).
+  assert (Hnp2 : existsb pending_fork l2 = false) by (apply existsb_false_map, drop_mark_not_pending).
+  (* whatever the first iteration does, the state it continues with has no pending fork left, or it stops *)
+  assert (Hnext : forall ce,
+            is_stopped (stop_loop true (S (S k)) dead true
+                          {| tids := l2; rchan := []; finish_received := finish_received s;
+                             child_exited := ce; failed := failed s |}) = true).
+  { intro ce. cbn [stop_loop rchan]. unfold check_tid_list. cbn [tids rchan finish_received child_exited failed].
+    set (l3 := map (check_mark dead) l2).
+    destruct (forallb t_exited l3) eqn:E3; [reflexivity|].
+    unfold drop_pending_forks. cbn [rchan tids finish_received].
+    assert (Hnp3 : existsb pending_fork l3 = false).
+    { apply existsb_false_map_keep; [intros x; apply check_mark_not_pending | exact Hnp2]. }
+    rewrite Hnp3.
+    destruct H as [H|H].
+    - (* everything could be finished: l3 is all exited, contradiction with E3 *)
+      exfalso. assert (E3' : forallb t_exited l3 = true).
+      { rewrite forallb_forall. intros x Hx. unfold l3, l2, l1 in Hx.
+        apply in_map_iff in Hx. destruct Hx as [y [<- Hy]].
+        apply in_map_iff in Hy. destruct Hy as [z [<- Hz]].
+        apply in_map_iff in Hz. destruct Hz as [w [<- Hw]].
+        apply check_mark_keeps_exited, drop_mark_exited, check_mark_done.
+        rewrite forallb_forall in H. apply H. exact Hw. }
+      congruence.
+    - rewrite H. reflexivity. }
+  destruct (existsb pending_fork l1) eqn:Ed.
+  - exact (Hnext (child_exited s || false)).
+  - (* nothing was dropped *)
+    cbn [finish_received]. destruct H as [H|H].
+    + exfalso. assert (E1' : forallb t_exited l1 = true).
+      { rewrite forallb_forall. intros x Hx. unfold l1 in Hx. apply in_map_iff in Hx. destruct Hx as [y [<- Hy]].
+        rewrite forallb_forall in H. destruct (check_mark_done dead y (H y Hy)) as [Hd|Hd]; [exact Hd|].
+        exfalso. assert (Hin : In (check_mark dead y) l1) by (apply in_map; exact Hy).
+        assert (existsb pending_fork l1 = true) by (apply existsb_exists; eexists; split; eassumption).
+        congruence. }
+      congruence.
+    + rewrite H. reflexivity.
+Qed.
+
+(* `uftrace record` terminates: from the moment every tracee has closed the pipe, if after the
+   pending messages every listed task is marked, a pending fork, or a dead task with a real tid -
+   or FINISH was received - the loop ends within |pending messages| + 2 iterations *)
+Theorem recorder_stops dead : forall ms s fuel,
+  rchan s = ms ->
+  forallb (task_done dead) (tids (handle_all ms s)) = true \/ finish_received (handle_all ms s) = true ->
+  (length ms + 2 < fuel)%nat ->
+  is_stopped (stop_loop true fuel dead true s) = true.
+Proof.
+  induction ms as [|m t IH]; intros s fuel Hch H Hf.
+  - apply stops_when_drained; [exact Hch | exact H | cbn in Hf; lia].
+  - destruct fuel as [|k]; [cbn in Hf; lia|]. cbn [stop_loop]. rewrite Hch.
+    apply (IH (handle m (set_rchan t s)) k).
+    + rewrite handle_rchan. reflexivity.
+    + exact H.
+    + cbn in Hf. lia.
+Qed.
+
+(* in the words of the property: every task is dead (no hypothesis about forks) *)
+Definition real_or_fork (t : tl) : bool := t_exited t || (-1 <=? t_tid t).
+Corollary recorder_stops_when_all_dead dead ms :
+  (forall tid, 0 <= tid -> dead tid = true) ->
+  forallb real_or_fork (tids (handle_all ms (rs0 ms))) = true ->
+  is_stopped (stop_loop true (length ms + 3) dead true (rs0 ms)) = true.
+Proof.
+  intros Hd Hr. apply (recorder_stops dead ms (rs0 ms)); [reflexivity| |lia].
+  left. rewrite forallb_forall in *. intros t Ht. specialize (Hr t Ht).
+  unfold real_or_fork, task_done in *. destruct (t_exited t); [reflexivity|]. cbn [orb] in *.
+  destruct (t_tid t =? -1) eqn:E; [reflexivity|]. cbn [orb].
+  apply Z.leb_le in Hr. apply Z.eqb_neq in E.
+  replace (0 <=? t_tid t) with true by (symmetry; apply Z.leb_le; lia). cbn. apply Hd. lia.
+Qed.
+
+(* the former fork window: FORK_START, no FORK_END, every task dead - the loop ends now *)
+Definition fw_msgs : list tmsg := [TaskStart 100 100; ForkStart 100; TaskEnd 100].
+Example fork_window_now_stops :
+  is_stopped (stop_loop true 6 (fun _ => true) true (rs0 fw_msgs)) = true
+  /\ is_stopped (stop_loop true 5 (fun _ => true) true (rs0 fw_msgs)) = true.
+Proof. split; reflexivity. Qed.
+
+(* ------------------------------------------------------------------ the legacy loop, and a pipe that still has a writer *)
 Definition unresolved (t : tl) : Prop := t_tid t < 0 /\ t_exited t = false.
 Definition stuck (s : rs) : Prop :=
   rchan s = [] /\ finish_received s = false /\ exists t, In t (tids s) /\ unresolved t.
@@ -45,14 +193,20 @@ Proof.
   - split; [exact Hch|]. split; [exact Hf|]. exists t. split; [exact Hin' | exact Hu].
 Qed.
 
-(* the stuck state is never left: stop_tracing does not return *)
-Theorem stuck_forever dead : forall fuel s, stuck s -> is_stopped (stop_loop fuel dead s) = false.
+(* without drop_pending_forks - or while some process still holds the pipe open - an unresolved
+   entry keeps the loop going for ever *)
+Theorem stuck_forever dropf nowriter dead :
+  dropf && nowriter = false ->
+  forall fuel s, stuck s -> is_stopped (stop_loop dropf fuel dead nowriter s) = false.
 Proof.
-  induction fuel as [|k IH]; intros s Hs; [reflexivity|].
+  intro Hoff. induction fuel as [|k IH]; intros s Hs; [reflexivity|].
   cbn [stop_loop]. pose proof Hs as [Hch _]. rewrite Hch.
   destruct (stuck_step dead s Hs) as [Ha Hst].
   destruct (check_tid_list dead s) as [s1 all]. cbn [fst snd] in *. subst all.
-  destruct Hst as [Hc1 [Hf1 Hx]]. rewrite Hf1. apply IH. split; [exact Hc1|]. split; [exact Hf1|exact Hx].
+  assert (Hd : (if dropf then drop_pending_forks nowriter s1 else (s1, false)) = (s1, false)).
+  { destruct dropf; [|reflexivity]. cbn in Hoff. subst nowriter.
+    unfold drop_pending_forks. destruct (rchan s1); reflexivity. }
+  rewrite Hd. destruct Hst as [Hc1 [Hf1 Hx]]. rewrite Hf1. apply IH. split; [exact Hc1|]. split; [exact Hf1|exact Hx].
 Qed.
 
 (* SIGCHLD does not help either: no process has pid -1 *)
@@ -70,69 +224,17 @@ Proof.
   exists t. split; [apply mark_first_keeps; assumption | exact Hu].
 Qed.
 
-(* the fork window: FORK_START is received, FORK_END never comes (fork() failed, or the child
-   died before its atfork handler ran); every task is dead; the recorder spins for ever *)
-Definition fw_msgs : list tmsg := [TaskStart 100 100; ForkStart 100; TaskEnd 100].
-Theorem fork_window_spins : forall fuel, is_stopped (stop_loop fuel (fun _ => true) (rs0 fw_msgs)) = false.
+(* the legacy code: FORK_START is received, FORK_END never comes, every task is dead, the pipe has no
+   writer - the recorder spins for ever *)
+Theorem fork_window_legacy_spins :
+  forall fuel, is_stopped (stop_loop false fuel (fun _ => true) true (rs0 fw_msgs)) = false.
 Proof.
   intro fuel. destruct fuel as [|[|[|k]]]; try reflexivity.
-  change (stop_loop (S (S (S k))) (fun _ => true) (rs0 fw_msgs))
-    with (stop_loop k (fun _ => true)
+  change (stop_loop false (S (S (S k))) (fun _ => true) true (rs0 fw_msgs))
+    with (stop_loop false k (fun _ => true) true
             {| tids := [ {| t_pid := 100; t_tid := -1; t_exited := false |};
                          {| t_pid := 100; t_tid := 100; t_exited := true |} ];
                rchan := []; finish_received := false; child_exited := false; failed := false |}).
-  apply stuck_forever. split; [reflexivity|]. split; [reflexivity|].
+  apply stuck_forever; [reflexivity|]. split; [reflexivity|]. split; [reflexivity|].
   eexists. split; [left; reflexivity|]. split; [reflexivity|reflexivity].
 Qed.
-
-(* termination *)
-Definition task_done (dead : Z -> bool) (t : tl) : bool := t_exited t || ((0 <=? t_tid t) && dead (t_tid t)).
-
-Lemma check_mark_done dead t : task_done dead t = true -> t_exited (check_mark dead t) = true.
-Proof.
-  unfold task_done, check_mark. destruct (t_exited t) eqn:E; cbn; [intros _; exact E|].
-  intro H. apply andb_true_iff in H. destruct H as [H1 H2].
-  replace (t_tid t <? 0) with false by (symmetry; apply Z.ltb_ge; apply Z.leb_le; exact H1).
-  rewrite H2. reflexivity.
-Qed.
-
-Theorem recorder_stops dead : forall ms s fuel,
-  rchan s = ms ->
-  forallb (task_done dead) (tids (handle_all ms s)) = true \/ finish_received (handle_all ms s) = true ->
-  (length ms < fuel)%nat ->
-  is_stopped (stop_loop fuel dead s) = true.
-Proof.
-  induction ms as [|m t IH]; intros s fuel Hch H Hf.
-  - destruct fuel as [|k]; [cbn in Hf; lia|]. cbn [stop_loop]. rewrite Hch. cbn [handle_all] in H.
-    unfold check_tid_list.
-    destruct (forallb t_exited (map (check_mark dead) (tids s))) eqn:E; [reflexivity|].
-    cbn [finish_received]. destruct H as [H|H]; [|rewrite H; reflexivity].
-    exfalso. assert (E' : forallb t_exited (map (check_mark dead) (tids s)) = true).
-    { rewrite forallb_forall. intros x Hx. apply in_map_iff in Hx. destruct Hx as [y [<- Hy]].
-      apply check_mark_done. rewrite forallb_forall in H. apply H. exact Hy. }
-    congruence.
-  - destruct fuel as [|k]; [cbn in Hf; lia|]. cbn [stop_loop]. rewrite Hch.
-    apply (IH (handle m (set_rchan t s)) k).
-    + rewrite handle_rchan. reflexivity.
-    + exact H.
-    + cbn in Hf. lia.
-Qed.
-
-(* in the words of the property: every task is dead and every FORK_START got its FORK_END *)
-Definition resolved (t : tl) : bool := t_exited t || (0 <=? t_tid t).
-Corollary recorder_stops_when_all_dead dead ms :
-  (forall tid, 0 <= tid -> dead tid = true) ->
-  forallb resolved (tids (handle_all ms (rs0 ms))) = true ->
-  is_stopped (stop_loop (S (length ms)) dead (rs0 ms)) = true.
-Proof.
-  intros Hd Hr. apply (recorder_stops dead ms (rs0 ms)); [reflexivity| |lia].
-  left. rewrite forallb_forall in *. intros t Ht. specialize (Hr t Ht).
-  unfold resolved, task_done in *. destruct (t_exited t); [reflexivity|]. cbn in *.
-  rewrite Hr. cbn. apply Hd. apply Z.leb_le. exact Hr.
-Qed.
-
-(* non-vacuity: a fork whose FORK_END arrives, all tasks dead *)
-Example stops_example :
-  is_stopped (stop_loop 5 (fun _ => true)
-                (rs0 [TaskStart 100 100; ForkStart 100; ForkEnd 100 101; TaskEnd 100])) = true.
-Proof. reflexivity. Qed.
